@@ -19,6 +19,7 @@ import (
 	"net/url"
 	"os"
 	"strings"
+	"sync"
 	"time"
 
 	"github.com/gorilla/websocket"
@@ -139,7 +140,11 @@ func newPair(path string) (*pair, error) {
 				acc <- c
 			}
 		}()
-		if !psim.WaitFor(10*time.Second, func() bool { return psim.Settled(nodes, "") }) {
+		// (Listen returns before the server has registered the upstream)
+		if !psim.WaitFor(10*time.Second, func() bool {
+			m, err := host.UpstreamEndpoints("")
+			return err == nil && m["tcp-e"] > 0 && psim.Settled(nodes, "")
+		}) {
 			stop()
 			return nil, fmt.Errorf("weng: did not settle")
 		}
@@ -195,7 +200,11 @@ func newPair(path string) (*pair, error) {
 				n.Stop()
 			}
 		}
-		if !psim.WaitFor(10*time.Second, func() bool { return psim.Settled(nodes, "") }) {
+		// (Listen returns before the server has registered the upstream)
+		if !psim.WaitFor(10*time.Second, func() bool {
+			m, err := n2.UpstreamEndpoints("")
+			return err == nil && m["tcp-e"] > 0 && psim.Settled(nodes, "")
+		}) {
 			stop()
 			return nil, fmt.Errorf("weng: did not settle")
 		}
@@ -311,6 +320,74 @@ func (r *run) close(end string) {
 	}
 }
 
+// bulk: both ends write total bytes at the same time (in writes of chunk bytes) while both ends read; one
+// Bulk line per direction: size = bytes written, n = bytes read, off = offset of the first byte that is not
+// what was written there (-1: none). Must be the first traffic of the run (offsets start at the current ones).
+func (r *run) bulk(total, chunk int) {
+	if r.closedBy != "" {
+		return
+	}
+	type res struct {
+		wrote, read, bad int
+		werr, rerr       string
+	}
+	out := map[string]*res{"ab": {bad: -1}, "ba": {bad: -1}}
+	var wg sync.WaitGroup
+	for _, dir := range []string{"ab", "ba"} {
+		dir := dir
+		w, rd := r.ends(dir)
+		base := r.wrote[dir]
+		wg.Add(2)
+		go func() {
+			defer wg.Done()
+			for out[dir].wrote < total {
+				n := chunk
+				if total-out[dir].wrote < n {
+					n = total - out[dir].wrote
+				}
+				_ = w.SetWriteDeadline(time.Now().Add(10 * time.Second))
+				k, err := w.Write(fill(base+out[dir].wrote, n))
+				out[dir].wrote += k
+				if err != nil {
+					out[dir].werr = classify(err)
+					return
+				}
+			}
+		}()
+		go func() {
+			defer wg.Done()
+			buf := make([]byte, 64*1024)
+			got := 0
+			for got < total {
+				_ = rd.SetReadDeadline(time.Now().Add(10 * time.Second))
+				k, err := rd.Read(buf)
+				for i := 0; i < k && out[dir].bad < 0; i++ {
+					if buf[i] != pat(base+got+i) {
+						out[dir].bad = base + got + i
+					}
+				}
+				got += k
+				if err != nil {
+					out[dir].rerr = classify(err)
+					break
+				}
+			}
+			out[dir].read = got
+		}()
+	}
+	wg.Wait()
+	for _, dir := range []string{"ab", "ba"} {
+		o := out[dir]
+		r.wrote[dir] += o.wrote
+		r.read[dir] += o.read
+		e := o.werr
+		if e == "" {
+			e = o.rerr
+		}
+		r.emit(&Step{Op: "Bulk", Path: r.path, Dir: dir, Size: o.wrote, N: o.read, Off: o.bad, Err: e})
+	}
+}
+
 func num(v interface{}) int { f, _ := v.(float64); return int(f) }
 func str(v interface{}) string { s, _ := v.(string); return s }
 
@@ -349,6 +426,8 @@ func main() {
 				c = []interface{}{s.Op, s.Dir, s.Size}
 			case "Close":
 				c = []interface{}{"Close", s.End}
+			case "Bulk":
+				c = []interface{}{"BulkResult", s.Dir, s.Size, s.N, s.Off}
 			default:
 				c = []interface{}{s.Op, s.Path}
 			}
@@ -384,6 +463,8 @@ func main() {
 				end = str(a[1])
 			}
 			r.close(end)
+		case "Bulk":
+			r.bulk(num(a[1]), num(a[2]))
 		}
 	}
 	for _, path := range sf.Paths {
